@@ -608,7 +608,7 @@ func (vc *VC) loopClauseVal(li *LoopInfo, cl *Clause, phiVals map[*ssa.Phi]Val, 
 		if n, ok := in.(*ssa.Next); ok {
 			if r, ok := n.Iter.(*ssa.Range); ok {
 				if mt, ok := r.X.Type().Underlying().(*types.Map); ok && vc.mapRangeNoInsert(r) {
-					env["verif_rangeseen"] = Val{t: vc.heapGet(st, "iter@seen@"+r.Name(), "(Array "+vc.S.sortOf(mt.Key())+" Bool)"), typ: mt.Key()}
+					env["verif_rangeseen"] = Val{t: vc.heapGet(st, "iter@seen@"+r.Name(), "(Array "+vc.S.keySort(mt.Key())+" Bool)"), typ: mt.Key()}
 				}
 			}
 		}
@@ -749,8 +749,8 @@ func (vc *VC) instr(in ssa.Instruction, st *State, reach Term, b *ssa.BasicBlock
 		name, sort, ms := vc.mapHeapName(mt)
 		r := vc.freshRef(st, x.Name())
 		h := vc.heapGet(st, name, sort)
-		empty := app(ms.ctor(), "((as const (Array "+vc.S.sortOf(mt.Key())+" Bool)) false)",
-			"((as const (Array "+vc.S.sortOf(mt.Key())+" "+vc.S.sortOf(mt.Elem())+")) "+vc.S.zero(mt.Elem())+")", "0")
+		empty := app(ms.ctor(), "((as const (Array "+vc.S.keySort(mt.Key())+" Bool)) false)",
+			"((as const (Array "+vc.S.keySort(mt.Key())+" "+vc.S.sortOf(mt.Elem())+")) "+vc.S.zero(mt.Elem())+")", "0")
 		vc.heapSet(st, name, sort, app("store", h, r, empty))
 		vc.vals[x] = Val{t: r, typ: x.Type()}
 		vc.nonnil[x] = true
@@ -1077,6 +1077,13 @@ func (vc *VC) intOp(x *ssa.BinOp, a, b Term, guard Term, emit bool) Val {
 	bits, signed, _ := intInfo(t)
 	switch x.Op {
 	case token.ADD:
+		if phi, ok := x.X.(*ssa.Phi); ok && phi.Comment == "rangeindex" && vc.fi != nil && vc.fi.fc.QInst {
+			if c, ok := x.Y.(*ssa.Const); ok && c.Value != nil && c.Int64() == 1 {
+				// the hidden index of `for range` over a slice, array or string runs from -1 to len-1: its
+				// increment cannot wrap, and a wrap term here would hide the index from quantifier patterns
+				return Val{t: app("+", a, b), typ: rt}
+			}
+		}
 		vc.overflowCheck(rt, app("+", a, b), guard, emit, x.Pos())
 		return Val{t: wrapInt(rt, app("+", a, b), true), typ: rt}
 	case token.SUB:
@@ -1265,7 +1272,7 @@ func (vc *VC) indexAddr(x *ssa.IndexAddr, get getter, st *State, guard Term, emi
 			vc.oblige("safe:index", "", guard, and(app("<=", "0", i), app("<", i, slLen(base.t))), x.Pos(), vc.construct(x.Pos()))
 		}
 		name, _ := vc.memName(t.Elem())
-		return Val{lv: &LVal{kind: lvElem, typ: t.Elem(), ref: slRef(base.t), idx: add(slOff(base.t), i), heap: name, nonnil: true}, typ: x.Type()}
+		return Val{lv: &LVal{kind: lvElem, typ: t.Elem(), ref: slRef(base.t), idx: vc.elemIx(slOff(base.t), i), heap: name, nonnil: true}, typ: x.Type()}
 	case *types.Pointer:
 		at := t.Elem().Underlying().(*types.Array)
 		lv := vc.lvOf(base)
@@ -1326,22 +1333,21 @@ func (vc *VC) mapKey(k Val, kt types.Type) Term {
 }
 
 // mapKeyTerm: Go compares string keys by contents, the SMT arrays of the map model by term identity;
-// string keys therefore go through a canonical representative: canon(a) = canon(b) exactly when the
-// strings are equal (str.eq), and canon(a) is itself equal to a.
+// string keys are therefore interned: str.id(a) = str.id(b) exactly when the strings are equal (str.eq),
+// and the map arrays are indexed by that integer (see keySort).
 func (vc *VC) mapKeyTerm(k Term, kt types.Type) Term {
 	b, ok := kt.Underlying().(*types.Basic)
 	if !ok || b.Info()&types.IsString == 0 {
 		return k
 	}
 	eqf := vc.strEqFun()
-	f := vc.declareFun("str.canon", []string{"Str"}, "Str")
-	if !vc.declSet["str.canon.ax"] {
-		vc.declSet["str.canon.ax"] = true
+	f := vc.declareFun("str.id", []string{"Str"}, "Int")
+	if !vc.declSet["str.id.ax"] {
+		vc.declSet["str.id.ax"] = true
 		vc.quantCtx = true
 		vc.decls = append(vc.decls,
-			"(assert (forall ((a Str) (b Str)) (! (=> ("+eqf+" a b) (= (str.canon a) (str.canon b))) :pattern (("+eqf+" a b)))))",
-			"(assert (forall ((a Str) (b Str)) (! (=> (= (str.canon a) (str.canon b)) ("+eqf+" a b)) :pattern ((str.canon a) (str.canon b)))))",
-			"(assert (forall ((a Str)) (! (and ("+eqf+" (str.canon a) a) (= (str.canon (str.canon a)) (str.canon a))) :pattern ((str.canon a)))))")
+			"(assert (forall ((a Str) (b Str)) (! (=> ("+eqf+" a b) (= (str.id a) (str.id b))) :pattern (("+eqf+" a b)))))",
+			"(assert (forall ((a Str) (b Str)) (! (=> (= (str.id a) (str.id b)) ("+eqf+" a b)) :pattern ((str.id a) (str.id b)))))")
 	}
 	return app(f, k)
 }
@@ -1779,4 +1785,26 @@ func (vc *VC) loopFrameTerm(lf *loopFrame, h Term) Term {
 	sel := "(select (select " + h + " " + slRef(lf.sl) + ") " + j + ")"
 	outside := "(forall ((" + j + " Int)) (! (=> (or (< " + j + " " + slOff(lf.sl) + ") (>= " + j + " (+ " + slOff(lf.sl) + " " + slLen(lf.sl) + "))) (= " + sel + " (select (select " + lf.oldH + " " + slRef(lf.sl) + ") " + j + "))) :pattern (" + sel + ")))"
 	return and(other, outside)
+}
+
+// elemIx: the position of element i of a slice that starts at off in its backing array. In a function
+// whose contract says `indexfn` it is the uninterpreted function ix with the defining axiom
+// ix(a, b) = a + b rather than the sum itself (opt-in: the byte-sequence views and the append/copy
+// models state their facts over sums, and proofs that connect both styles got slower with ix):
+// solvers normalise sums (off + (k + 1) becomes 1 + off + k), which hides the index from quantifier
+// patterns of the form (select arr (+ off k)); an application of ix is matched as it stands.
+func (vc *VC) elemIx(off, i Term) Term {
+	if off == "0" {
+		return i
+	}
+	if vc.fi == nil || !vc.fi.fc.IndexFn {
+		return add(off, i)
+	}
+	f := vc.declareFun("ix", []string{"Int", "Int"}, "Int")
+	if !vc.declSet["ix.ax"] {
+		vc.declSet["ix.ax"] = true
+		vc.quantCtx = true
+		vc.decls = append(vc.decls, "(assert (forall ((a Int) (b Int)) (! (= (ix a b) (+ a b)) :pattern ((ix a b)))))")
+	}
+	return app(f, off, i)
 }
